@@ -21,6 +21,13 @@ Theorem C23_fahrenheit : forall x : Q,
 Proof. exact fahrenheit_inv. Qed.
 Print Assumptions C23_fahrenheit.
 
+(* the documented aliases celsius / degree_celsius / fahrenheit / degree_fahrenheit *)
+Theorem C23_temperature_aliases : forall x : Q,
+  nbt_celsius (nbt_from_celsius x) == x /\ nbt_degree_celsius (nbt_from_celsius x) == x /\
+  nbt_fahrenheit (nbt_from_fahrenheit x) == x /\ nbt_degree_fahrenheit (nbt_from_fahrenheit x) == x.
+Proof. exact temperature_aliases. Qed.
+Print Assumptions C23_temperature_aliases.
+
 Theorem C23_julian : forall x : Q,
   nbt_julian_date (nbt_from_julian_date x) == x /\ nbt_from_julian_date (nbt_julian_date x) == x.
 Proof. exact julian_inv. Qed.
@@ -95,6 +102,21 @@ Theorem C23_mixed_whole : forall units val acc l,
   exists parts, l = acc ++ parts /\ length parts = length units /\ whole_but_last units parts.
 Proof. exact mixed_whole. Qed.
 Print Assumptions C23_mixed_whole.
+
+(* for POSITIVE unit sizes and a non-negative value: every part is non-negative, and each step splits off a
+   whole number of units and leaves a non-negative remainder smaller than that unit *)
+Theorem C23_mixed_positive :
+  (forall u val, 0 < u -> 0 <= val ->
+     0 <= val - nbt_trunc_in u val /\ val - nbt_trunc_in u val < u /\ 0 <= nbt_trunc_in u val) /\
+  (forall units val acc l, Forall (fun u => 0 < u) units -> 0 <= val -> Forall (fun p => 0 <= p) acc ->
+     mixed_unit_list val units acc = Some l -> Forall (fun p => 0 <= p) l).
+Proof. split; [exact trunc_in_remainder|exact mixed_nonneg]. Qed.
+Print Assumptions C23_mixed_positive.
+
+(* core::lists reverse (hand port): reversing twice is the identity *)
+Theorem C23_reverse : forall (A : Type) (xs : list A), nbt_reverse (nbt_reverse xs) = xs.
+Proof. exact reverse_involutive. Qed.
+Print Assumptions C23_reverse.
 
 (* unit_list(units, value), i.e. _mixed_unit_list on unique |> sort-descending of ANY unit
    list: the parts add up to the value, one part per distinct unit, all but the last whole *)
